@@ -81,6 +81,14 @@ def api_part(c):
         if op in ndraws:
             for high in (1, 2, 50, 99, 100, 101, 102, 150):
                 lines.append({"op": op, "seed": 21, "failat": 0, "reps": 2, "high": high}); owner.append(op)
+    # a source whose first 32-byte value sits at the edge of the scalar range: the group order n itself, just above it, between n and the field prime p, p, the
+    # largest 256-bit values, zero (each delivered in both byte orders): a successful result is still built on a drawn value in [1, n-1]
+    from sm2ref import n as N_, p as P_
+    for op in NONCE_OPS:
+        if op in ndraws:
+            for v in (N_, N_ + 1, N_ + 5, (N_ + P_) // 2, P_ - 1, P_, P_ + 1, 2 ** 256 - 2, 0, N_ - 1):
+                for order in ("little", "big"):
+                    lines.append({"op": op, "seed": 23, "failat": 0, "reps": 1, "edge": v.to_bytes(32, order).hex(), "_edge": "%s%+d:%s" % ((("n", v - N_) if abs(v - N_) < 10 else ("p", v - P_) if abs(v - P_) < 10 else ("v", v % 1000)) + (order,))}); owner.append(op)
     # persistent contexts: a history of 70 signatures with the source failing at each draw index of the first three nonce batches
     for op in PERSIST:
         ndraws[op] = 0
@@ -89,7 +97,7 @@ def api_part(c):
     res = CL.run_script("entdrv", ["entdrv.c", "vh.c"], lines, tag="c18b", procs=1 if len(lines) < 50 else 12)
     per_op = {}
     for (case, evs, san), op in zip(res, owner):
-        key = "c18:%s:seed%s:failat%s:reps%s%s" % (op, case["seed"], case["failat"], case["reps"], ":high%s" % case["high"] if case.get("high") else "")
+        key = "c18:%s:seed%s:failat%s:reps%s%s%s" % (op, case["seed"], case["failat"], case["reps"], ":high%s" % case["high"] if case.get("high") else "", ":edge=%s" % case["_edge"] if case.get("_edge") else "")
         c.count(1, key)
         if san:
             c.violation(key + ":crash", "driver died / sanitizer report: %s" % san, {"case": case})
@@ -102,7 +110,7 @@ def api_part(c):
                 e.pop("cand", None)
                 if e["nonceop"]:
                     c.cov["nonce_source_checked"] = c.cov.get("nonce_source_checked", 0) + 1
-        if case.get("high"):
+        if case.get("high") or case.get("edge"):
             evs = [{"e": "Group"}] + evs            # its own stream history: the comparison with other runs of the same seed does not apply
         per_op.setdefault(op, [{"e": "Group"}]).extend(evs)
     return [("c18:api:" + op, evs) for op, evs in per_op.items()]
